@@ -159,7 +159,7 @@ type PkgSpec struct {
 	Protos    map[string]*Protocol
 	Locks     []*LockSpec
 	InitOnly  []string
-	Monotone  []string // Type.field: boolean flags that only ever go from false to true
+	Monotone  []string             // Type.field: boolean flags that only ever go from false to true
 	ExtFuncs  map[string]*Contract // assumed contracts of dependency functions, keyed by ssa.Function.String()
 }
 
